@@ -58,6 +58,10 @@ def gen(rng, maxlen):
         else:
             # fault injection: the next maintenance pass (explicit, or the reactive one inside an add) fails once
             ops.append({"op": "fault_next_maintenance"})
+    # state hook: the history continues an LDM that has already handed out many identifiers (close to 2^16 / 2^31 / 2^32)
+    used = rng.choice((None, None, None, 65530, 65534, (1 << 31) - 4, (1 << 32) - 3))
+    if used:
+        ops.insert(rng.randrange(len(ops) // 3, len(ops)), {"op": "age_ldm", "ids_already_used": used})
     return {"db": "Dictionary", "ops": ops}
 
 
@@ -82,6 +86,7 @@ def run_case(c, res):
     try:
         ldm = H.make_ldm(db=c["db"], tmpdir=tmp)
         i3, i4 = ldm.if_ldm_3, ldm.if_ldm_4
+        db_ = ldm.ldm_maintenance.data_containers
         i4.register_data_consumer(RegisterDataConsumerReq(AUDITOR, (AccessPermission(AUDITOR),), H.area()))
         providers, consumers = set(), {AUDITOR}
         objs = {}              # id -> dict(rec, expire_its, type)
@@ -273,6 +278,12 @@ def run_case(c, res):
                             raise
                 elif kind == "fault_next_maintenance":
                     armed[0] = True
+                elif kind == "age_ldm":
+                    # state hook: from here on the LDM behaves as if it had already handed out that many identifiers (objects
+                    # added and deleted long ago) -- the ones handed out earlier in this history stay taken
+                    if hasattr(db_, "_next_id") and isinstance(getattr(db_, "_next_id"), int) and db_._next_id < op["ids_already_used"]:
+                        db_._next_id = op["ids_already_used"]
+                        res.count("histories_continuing_a_long_lived_ldm")
             except Exception as e:  # noqa
                 res.violation(f"C12:operation-raises-{type(e).__name__}[{kind}]", f"{e!r}", ctx)
                 return
